@@ -117,8 +117,17 @@ func c04Whole(idx int, rng *rand.Rand, tr *ndWriter, kind string) *Result {
 	nin := 2 + rng.Intn(7)
 	ng := 3 + rng.Intn(18)
 	n0 := rng.Intn(nin + 1)
+	if idx%4 == 3 {
+		// many input wires (label generation in bulk, more labels than any internal batch): 1025..2200 on the garbler's side
+		nin = 1030 + rng.Intn(1200)
+		n0 = nin - rng.Intn(5)
+		res.Class += ":wide-input"
+	}
 	nout := 1 + rng.Intn(3)
 	tc := randomCircuit(rng, nin, ng, n0, nout)
+	if idx%4 == 3 {
+		tc.Inp[1023] = (idx / 4) % 2 // the label at a power-of-two position is sent for bit 0 and for bit 1 in turn
+	}
 	circ, _ := mkTwoParty(tc)
 	x := bitsToBig(tc.Inp[:n0])
 	y := bitsToBig(tc.Inp[n0:])
@@ -514,6 +523,48 @@ func c04Sha2pc(idx int, rng *rand.Rand, tr *ndWriter) (*Result, error) {
 	}
 	if len(rAt) > 0 {
 		res.viol("R-sent:sha2pc", "R itself is transmitted at offset %d", rAt[0])
+	}
+	// round 3 is repeated for the same session with another garbler input (a retransmission after the input changed,
+	// or a session restored from its encoding): everything the garbler sent in BOTH messages, the output hints of
+	// the known finding blanked, must still not contain two values differing by the offset of either garbling
+	var a2 [32]byte
+	for i := range a2 {
+		a2[i] = ^a[i]
+	}
+	dr3b := newDetRand(uint64(seed())<<32 + uint64(idx)*5 + 6)
+	if m3b, err := sha2pc.GarblerRound3(dr3b, curve, gs, a2, m2); err == nil {
+		if e3b, err := sha2pc.EncodeRound3(m3b); err == nil {
+			blank := func(enc []byte, hints []ot.Wire) []byte {
+				out := append([]byte(nil), enc...)
+				if len(hints) == 0 {
+					return out
+				}
+				hb := labelBytes(hints[0].L0)
+				for i := 0; i+16 <= len(out); i++ {
+					if string(out[i:i+16]) == string(hb[:]) {
+						for j := i; j < i+32*len(hints) && j < len(out); j++ {
+							out[j] = byte(j * 7) // not zero: zero windows would pair up with R itself
+						}
+						break
+					}
+				}
+				return out
+			}
+			both := append(blank(e3, m3.OutputHints), blank(e3b, m3b.OutputHints)...)
+			r2 := r
+			if len(dr3b.log) >= 48 {
+				var d2 ot.LabelData
+				copy(d2[:], dr3b.log[32:48])
+				r2.SetData(&d2)
+				r2.SetS(true)
+			} // else: the second call drew no randomness - it garbled with the offset of the first call
+			for _, rr := range []ot.Label{r, r2} {
+				if p2, _, _ := scanTranscript(both, rr); len(p2) > 0 {
+					res.viol("pair:sha2pc:repeated-round3", "two round-3 messages of one session (garbler inputs a and not-a) together contain two 16-byte values differing by the garbling offset (first at offset %d): both labels of a wire were sent", p2[0])
+					break
+				}
+			}
+		}
 	}
 	res.Nontrivial = true
 	res.Sample = map[string]int{"bytes": len(transcript), "windows": windows}
